@@ -311,6 +311,7 @@ func runCheck(repo, id, tier string) int {
 		if os.Getenv("VCGO_PROGRESS") != "" {
 			fmt.Fprintf(os.Stderr, "generated %s [%s] in %.1fs: %d obligations, %d steps\n", rep.Key, it.mode, time.Since(t0).Seconds(), len(vc.obls), vc.steps)
 		}
+		rep.vc = vc
 		reports = append(reports, rep)
 		funcsUnder[rep.Key] = true
 		for a := range vc.usedAssumptions {
@@ -331,7 +332,7 @@ func runCheck(repo, id, tier string) int {
 	// ---- discharge --------------------------------------------------------------------------
 	work, _ := os.MkdirTemp("", "vcgo-"+id+"-")
 	defer os.RemoveAll(work)
-	quickSec, fullSec := 4, 40
+	quickSec, fullSec := 4, 90
 	if tier == "thorough" {
 		quickSec, fullSec = 10, 600
 	}
@@ -351,6 +352,14 @@ func runCheck(repo, id, tier string) int {
 	solverTime := 0.0
 	bySolver := map[string]int{}
 	reported := map[string]bool{}
+	var curReplay *replayResult
+	replayDeadline = time.Now().Add(150 * time.Second)
+	if tier == "thorough" {
+		replayDeadline = time.Now().Add(600 * time.Second)
+	}
+	replayAttempts := 0
+	replayPerFunc := map[string]int{}
+	funcReplay := map[string]*replayResult{}
 	fail := func(name, reason, detail, smt string, hasModel bool) {
 		if reported[name] {
 			return
@@ -376,6 +385,10 @@ func runCheck(repo, id, tier string) int {
 			os.WriteFile(sp, []byte(smt), 0o644)
 			rec["smt_file"] = sp
 		}
+		if curReplay != nil && curReplay.source != "" {
+			rec["replay"] = map[string]interface{}{"confirmed": curReplay.confirmed, "package_dir": curReplay.pkgDir, "inputs": curReplay.inputs,
+				"test_source": curReplay.source, "obligation_kind": curReplay.kind, "note": curReplay.note, "rerun": "vcgo replay " + p}
+		}
 		b, _ := json.MarshalIndent(rec, "", " ")
 		os.WriteFile(p, b, 0o644)
 		suffix := " no-failing-input-found"
@@ -387,7 +400,21 @@ func runCheck(repo, id, tier string) int {
 	for _, rep := range reports {
 		if rep.Error != "" {
 			nObl++
-			fail(rep.Key+"#generate", "obligation generation failed (code left the verified subset or contract no longer matches)", rep.Error, "", false)
+			// no obligations, hence no model; the contract can still be tested against the real code
+			detail := rep.Error
+			confirmed := false
+			if rep.vc != nil && rep.vc.entries[rep.Key] != nil && replayAttempts < 14 {
+				replayAttempts++
+				rr := tryReplay(eng, &Obligation{Name: rep.Key + "#generate", Func: rep.Key, Kind: "generate", vc: rep.vc}, replayDir)
+				rr.kind = "generate"
+				curReplay = &rr
+				confirmed = rr.confirmed
+				if rr.text != "" {
+					detail += "\nreplay: " + rr.text
+				}
+			}
+			fail(rep.Key+"#generate", "obligation generation failed (code left the verified subset or contract no longer matches)", detail, "", confirmed)
+			curReplay = nil
 		}
 	}
 	for _, k := range orphaned {
@@ -412,6 +439,48 @@ func runCheck(repo, id, tier string) int {
 		bySolver[o.Solver]++
 		records = append(records, oblRecord{o.Name, o.Kind, o.Mode, "unsat", o.Solver, 0, o.Props})
 	}
+	// replay pass: failed obligations with a model first, postconditions and lemmas before
+	// intermediate assertions; at most 12 attempts per run and 2 per function, within the budget
+	replayOf := map[*Obligation]*replayResult{}
+	{
+		var cands []*Obligation
+		for _, o := range obls {
+			if !o.Cover && o.Result != "unsat" {
+				cands = append(cands, o)
+			}
+		}
+		rank := func(o *Obligation) int {
+			r := 0
+			if o.Result != "sat" {
+				r += 4
+			}
+			if o.Kind != "post" && o.Kind != "lemma" {
+				r += 2
+			}
+			return r
+		}
+		sort.SliceStable(cands, func(i, j int) bool { return rank(cands[i]) < rank(cands[j]) })
+		for _, o := range cands {
+			base := o.Label
+			if i := strings.Index(base, "."); i >= 0 {
+				base = base[:i]
+			}
+			if prev := funcReplay[o.Func]; prev != nil && o.Kind == "post" && prev.failedClause[base] {
+				continue
+			}
+			if replayAttempts >= 12 || replayPerFunc[o.Func] >= 2 {
+				continue
+			}
+			replayAttempts++
+			replayPerFunc[o.Func]++
+			rr := tryReplay(eng, o, replayDir)
+			rr.kind = o.Kind
+			replayOf[o] = &rr
+			if rr.confirmed && funcReplay[o.Func] == nil {
+				funcReplay[o.Func] = &rr
+			}
+		}
+	}
 	coverByFunc := map[string][]string{}
 	for _, o := range obls {
 		solverTime += o.Seconds
@@ -433,15 +502,28 @@ func runCheck(repo, id, tier string) int {
 		detail := o.Output
 		if o.Result == "sat" {
 			detail += "\n" + firstLines(o.Model, 80)
-			rr := tryReplay(eng, o, replayDir)
+		}
+		// replay: at most 10 attempts per run and 2 per function; a confirmed replay of a function
+		// also stands for its other failing clauses that the same run showed false
+		base := o.Label
+		if i := strings.Index(base, "."); i >= 0 {
+			base = base[:i]
+		}
+		if rr := replayOf[o]; rr != nil {
+			curReplay = rr
 			if rr.confirmed {
 				hasModel = true
 				detail += "\nREPLAY on real code: " + rr.text
 			} else if rr.text != "" {
 				detail += "\nreplay: " + rr.text
 			}
+		} else if prev := funcReplay[o.Func]; prev != nil && o.Kind == "post" && prev.failedClause[base] {
+			curReplay = prev
+			hasModel = true
+			detail += "\nREPLAY on real code (same run as for another clause of this function): " + prev.text
 		}
 		fail(o.Name, "obligation not discharged: "+o.Result, detail, o.smtText, hasModel)
+		curReplay = nil
 	}
 	// vacuity: a function whose every cover query is unsat has contradictory assumptions
 	for f, rs := range coverByFunc {
